@@ -55,7 +55,8 @@ LArg(shape, j) ==
     [] shape = "const2" -> IF j = 2 THEN O2(23, V(1), N(2)) ELSE O2(28, V(j - 1), N(0))
 
 \* numeric root operators
-NumOps == {"add", "sub", "mul", "mulc", "neg", "abs", "min2", "max2", "min3", "max3", "if", "count",
+NumOps == {"div", "ifc", "countn",       \* division by an expression, if-then-else with constant branches, count of numeric operands
+           "add", "sub", "mul", "mulc", "neg", "abs", "min2", "max2", "min3", "max3", "if", "count",
            "numberofc", "numberofv", "pl", "divc", "sqr", "pow3", "sum3", "absdiff", "maxabs"}
 NumExprA(op, a, b, c, p, q, r) ==
   CASE op = "add"  -> O2(0, a, b)
@@ -70,6 +71,9 @@ NumExprA(op, a, b, c, p, q, r) ==
     [] op = "max3" -> ON(12, <<a, b, c>>)
     [] op = "if"   -> O3(35, p, b, c)
     [] op = "count" -> ON(59, <<p, q, r>>)
+    [] op = "div"  -> O2(3, a, b)                    \* points where b = 0 are outside the function's domain (not evaluated)
+    [] op = "ifc"  -> O3(35, p, N(3), N(-1))
+    [] op = "countn" -> ON(59, <<a, b, q>>)          \* a numeric operand counts when it is not 0
     [] op = "numberofc" -> ON(60, <<N(1), a, b, c>>)
     [] op = "numberofv" -> ON(60, <<a, b, c>>)
     [] op = "pl"   -> PL(<<-1, 1, 2>>, <<0, 1>>, V(0))
